@@ -130,7 +130,43 @@ async fn episode(p: &EpParams) -> EpReport {
         let t = rng.pick(&topics).clone();
         let s = rng.pick(&subs).clone();
         let step: String;
-        match rng.below(19) {
+        match rng.below(20) {
+            19 => {
+                // a DeleteTopic that looked its topic up, was held back (as a request waiting for room in
+                // the topic's mailbox is) and reaches the *old* topic's actor only after the topic was
+                // deleted by somebody else and created again under the same name: it addresses the old
+                // incarnation and must leave the new one alone. The held-back request is the library
+                // call the gRPC handler makes, on the handle it looked up.
+                if !seq.m.topics.contains_key(&t) {
+                    continue;
+                }
+                let Some(tn) = deltio::topics::TopicName::try_parse(&t) else { continue };
+                let Ok(stale) = w.tm.get_topic(&tn) else { continue };
+                // (no model checks while the handle is held: like any request in flight it keeps the
+                // old topic object alive, and the views are only compared at quiescent points)
+                if seq.cx.delete_topic(&t).await.is_err() {
+                    continue;
+                }
+                seq.m.delete_topic(&t);
+                deleted_names.insert(t.clone());
+                if seq.cx.create_topic(&t).await.is_ok() {
+                    seq.m.create_topic(&t);
+                    if rng.chance(1, 2) && !seq.m.subs.contains_key(&s) && seq.cx.create_sub(&s, &t, 10).await.is_ok() {
+                        seq.m.create_sub(&s, &t, 10, None);
+                    }
+                }
+                seq.steps.push(format!("delete_topic({}) + create_topic({}) while an old handle is held", short(&t), short(&t)));
+                let r = tokio::time::timeout(Duration::from_secs(3600), stale.delete()).await;
+                seq.steps.push(format!("stale handle of the old incarnation of {}: delete() -> {}", short(&t), match &r { Ok(Ok(())) => "Ok", Ok(Err(_)) => "Err", Err(_) => "no answer" }));
+                if r.is_err() {
+                    rep.viol("C07", "C07:Q-term:stale-topic-delete", "a delete on the handle of a deleted topic was never answered");
+                }
+                drop(stale);
+                w.settle().await;
+                seq.after_step("DeleteTopic").await;
+                rep.inc("stale_topic_handle_deletes");
+                step = "stale_topic_delete".into();
+            }
             17 | 18 => {
                 // a control-plane request abandoned after a few scheduler turns: whichever way it
                 // went, the views must agree afterwards (resolved by observation)
